@@ -20,6 +20,11 @@ type Sched struct {
 	pos     int
 	// Trace is the sequence of thread indices that were given the token.
 	Trace []int
+	// Runnable[i] lists the threads that could have been chosen at step i of Trace.
+	Runnable [][]int
+	// ByThread makes choices name thread indices directly (a choice naming a finished thread falls back to
+	// the default policy) instead of indexing the runnable list.
+	ByThread bool
 	// Preemptions counts token hand-overs away from a thread that could have continued.
 	Preemptions int
 
@@ -92,10 +97,18 @@ func (s *Sched) Run(limit time.Duration, bodies ...func()) bool {
 			return true
 		}
 		next := -1
-		if s.pos < len(s.choices) {
+		if s.pos < len(s.choices) && s.ByThread {
+			for _, r := range runnable {
+				if r == s.choices[s.pos] {
+					next = r
+				}
+			}
+			s.pos++
+		} else if s.pos < len(s.choices) {
 			next = runnable[s.choices[s.pos]%len(runnable)]
 			s.pos++
-		} else {
+		}
+		if next < 0 {
 			// no more choices: keep running the last thread if it can continue
 			for _, r := range runnable {
 				if r == last {
@@ -110,6 +123,7 @@ func (s *Sched) Run(limit time.Duration, bodies ...func()) bool {
 			s.Preemptions++
 		}
 		s.Trace = append(s.Trace, next)
+		s.Runnable = append(s.Runnable, runnable)
 		s.mu.Lock()
 		s.current = next
 		s.mu.Unlock()
@@ -126,12 +140,16 @@ func (s *Sched) Run(limit time.Duration, bodies ...func()) bool {
 	}
 }
 
-// Store wraps a TransactionStore with a yield point before every transaction.
+// Store wraps a TransactionStore with a yield point before every transaction and, with Blobs set, before every
+// blob operation made outside a transaction (file reads and writes work on the record's blob outside transactions).
 type Store struct {
 	Inner keyvalue.TransactionStore
 	S     *Sched
+	// Blobs enables yield points at blob-operation granularity.
+	Blobs bool
 	// Transactions counts transactions begun.
 	Transactions int
+	inTxn        bool
 }
 
 func (y *Store) Get(ctx context.Context, p string) (keyvalue.FileRecord, error) {
@@ -145,8 +163,89 @@ func (y *Store) Set(ctx context.Context, p string, src keyvalue.FileRecord) erro
 func (y *Store) Transaction(o keyvalue.TransactionOptions) (keyvalue.Transaction, error) {
 	y.S.Yield()
 	y.Transactions++
-	return y.Inner.Transaction(o)
+	t, err := y.Inner.Transaction(o)
+	if err != nil {
+		return nil, err
+	}
+	y.inTxn = true
+	return &yieldTxn{Transaction: t, st: y}, nil
 }
 
+type yieldTxn struct {
+	keyvalue.Transaction
+	st *Store
+}
+
+func (t *yieldTxn) Commit(ctx context.Context) ([]keyvalue.OpResult, error) {
+	res, err := t.Transaction.Commit(ctx)
+	t.st.inTxn = false
+	if err == nil && t.st.Blobs {
+		for i := range res {
+			if res[i].Record != nil && res[i].Err == nil && !res[i].Record.Mode().IsDir() {
+				res[i].Record = &yieldRecord{FileRecord: res[i].Record, st: t.st}
+			}
+		}
+	}
+	return res, err
+}
+
+func (t *yieldTxn) Abort() error {
+	err := t.Transaction.Abort()
+	t.st.inTxn = false
+	return err
+}
+
+// yieldRecord hands out the record's blob behind yield points.
+type yieldRecord struct {
+	keyvalue.FileRecord
+	st *Store
+}
+
+func (r *yieldRecord) Data() (blob.Blob, error) {
+	b, err := r.FileRecord.Data()
+	if err != nil || b == nil {
+		return b, err
+	}
+	if yb, ok := b.(*yieldBlob); ok {
+		return yb, nil
+	}
+	return &yieldBlob{inner: b, st: r.st}, nil
+}
+
+// yieldBlob yields before every blob operation made outside a transaction.
+type yieldBlob struct {
+	inner blob.Blob
+	st    *Store
+}
+
+func (b *yieldBlob) yield() {
+	if !b.st.inTxn {
+		b.st.S.Yield()
+	}
+}
+
+func unwrap(b blob.Blob) blob.Blob {
+	if yb, ok := b.(*yieldBlob); ok {
+		return yb.inner
+	}
+	return b
+}
+
+func (b *yieldBlob) Bytes() []byte { b.yield(); return b.inner.Bytes() }
+func (b *yieldBlob) Len() int      { return b.inner.Len() }
+func (b *yieldBlob) View(start, end int64) (blob.Blob, error) {
+	b.yield()
+	return blob.View(b.inner, start, end)
+}
+func (b *yieldBlob) Slice(start, end int64) (blob.Blob, error) {
+	b.yield()
+	return blob.Slice(b.inner, start, end)
+}
+func (b *yieldBlob) Set(src blob.Blob, off int64) (int, error) {
+	b.yield()
+	return blob.Set(b.inner, unwrap(src), off)
+}
+func (b *yieldBlob) Grow(n int64) error     { b.yield(); return blob.Grow(b.inner, n) }
+func (b *yieldBlob) Truncate(n int64) error { b.yield(); return blob.Truncate(b.inner, n) }
+
 var _ keyvalue.TransactionStore = &Store{}
-var _ blob.Blob = (*blob.Bytes)(nil)
